@@ -381,6 +381,7 @@ func inv_Build_pass1(g *Graph, injector *Injector, pools [][]*node, poolProvided
 	vs.Invariant("return_ready", returnParamReady(injector))
 	vs.Invariant("return_is_the_requested_value", vs.Implies(topoIdx(g, g.returnValue.node) < kvcIdx, returnIsRequested(g, injector)))
 	vs.Invariant("fallible_recorded", fallibleRecorded(pools, injector))
+	vs.Invariant("only_thread_0_may_start_synchronously", onlyPool0SyncFirst(pools))
 	vs.Invariant("pooled_where_recorded", vs.Forall(kvcIdx, func(j int) bool {
 		return vs.Implies(topoOrder(g)[j].providerSpec != nil, pooledAt(pools, topoOrder(g)[j]))
 	}))
@@ -450,6 +451,12 @@ func argsFromNodes(g *Graph, injector *Injector, bound int) bool {
 // returnIsRequested (C02): the injector returns the requested value of the node that supplies the requested type.
 func returnIsRequested(g *Graph, injector *Injector) bool {
 	return injector.Return != nil && injector.Return.Param == g.returnValue.node.returnValues[g.returnValue.returnIndex]
+}
+
+// onlyPool0SyncFirst (C03/C05): every thread other than thread 0 is empty or starts with an Async provider - a
+// synchronous provider never opens a thread of its own, except the very first provider placed.
+func onlyPool0SyncFirst(pools [][]*node) bool {
+	return vs.ForallRange(1, len(pools), func(p int) bool { return len(pools[p]) == 0 || pools[p][0].providerSpec.IsAsync })
 }
 
 // fallibleRecorded: a pooled provider that can fail has made the injector fallible.
